@@ -344,6 +344,7 @@ type KVGen struct {
 	valCtr int
 	brCtr  int
 	Insts  []string // versioned kv instances per repo 0
+	Fixed  int      // number of leading set-up steps
 }
 
 func (g *KVGen) NewVal() string {
@@ -372,6 +373,7 @@ func GenKVHistory(r *rand.Rand, o KVGenOpts) *KVGen {
 		g.D.Add(1, VUUID(1), nil, "", 1)
 		g.Steps = append(g.Steps, drv.Op{Op: "inst", R: 1, I: "kvb", T: "keyvalue"})
 	}
+	g.Fixed = len(g.Steps)
 	for i := 0; i < o.Steps; i++ {
 		g.step()
 	}
